@@ -42,31 +42,47 @@ def get_finder_for(search_sid, config=None):  # get finder by Sid and optional c
     Returns:
         A Finder instance for this search.
     """
-    # type: ignore
-    from spil_sid_conf import projects, asset_types  # type: ignore
-    from spil import FindInConstants, FindInPaths, Finder
-
-    finder_paths = FindInPaths()
-    finder_projects = FindInConstants("project", projects)
-    finder_types = FindInConstants("type", ["a", "s"], parent_source=finder_projects)
-    finder_assettypes = FindInConstants('assettype', asset_types, parent_source=finder_types)
-    finder_asset_states = FindInConstants('state', ["w", "p"], parent_source=finder_paths)
-
-    finders_by_type = {
-        'project': finder_projects,
-        'asset': finder_types,
-        'shot': finder_types,
-        'asset__assettype': finder_assettypes,
-        'asset__state': finder_asset_states,
-        'shot__state': finder_asset_states,
-        'default': finder_paths
-    }
+    finders_by_type = _get_finders_by_type()
 
     finder: Finder = finders_by_type.get(search_sid.type, {}) or finders_by_type.get('default', {})
     if finder:
         return finder
     else:
         return None
+
+
+_finders_by_type: dict = {}
+
+
+def _get_finders_by_type() -> dict:
+    """
+    Builds the Finder instances once.
+    FindInAll groups the typed searches by Finder instance: searches served by the same source must get
+    the same instance, else each of them is searched (and, for a ">" search, reduced to its "last") separately.
+    """
+    if not _finders_by_type:
+
+        # type: ignore
+        from spil_sid_conf import projects, asset_types  # type: ignore
+        from spil import FindInConstants, FindInPaths
+
+        finder_paths = FindInPaths()
+        finder_projects = FindInConstants("project", projects)
+        finder_types = FindInConstants("type", ["a", "s"], parent_source=finder_projects)
+        finder_assettypes = FindInConstants('assettype', asset_types, parent_source=finder_types)
+        finder_asset_states = FindInConstants('state', ["w", "p"], parent_source=finder_paths)
+
+        _finders_by_type.update({
+            'project': finder_projects,
+            'asset': finder_types,
+            'shot': finder_types,
+            'asset__assettype': finder_assettypes,
+            'asset__state': finder_asset_states,
+            'shot__state': finder_asset_states,
+            'default': finder_paths
+        })
+
+    return _finders_by_type
 
 
 #########################################################
